@@ -304,6 +304,7 @@ pub proof fn lemma_ext_trans(a: Seq<SessionFrame>, b: Seq<SessionFrame>, c: Seq<
 }
 
 //@@ fn file=fe2o3-amqp/src/session/engine.rs name=send_outgoing_item
+//@@ attr #[verifier::loop_isolation(false)]
 //@@ shape loops=for
 //@@ param outgoing : &mut ChanSender<SessionFrame>
 //@@ param conn_stop : &OnceCell<ConnectionStopReason>
@@ -408,6 +409,7 @@ impl SessionEngine {
 //@@ end
 
 //@@ fn file=fe2o3-amqp/src/session/engine.rs impl=`~impl<S>SessionEngine<S>whereS:endpoint::SessionEndpoint<State=SessionState>+SendBound+Sync+'static,` name=wait_for_remote_end
+//@@ attr #[verifier::loop_isolation(false)]
 //@@ shape loops=loop
 //@@ qmark
 //@@ attr #[verifier::exec_allows_no_decreases_clause]
